@@ -33,6 +33,8 @@ def render_stmt(st, k, names, kinds):
             return [f"black_box({src}.next());" if mut else f"black_box({src}.size_hint());"], []
         if kind == "Iter":
             return [f"black_box({src}.clone().count());"], []
+        if kind == "SetMut":
+            return [f"black_box({src}.next());" if mut else f"black_box({src}.size_hint());"], []
         if kind == "RefMut":
             return [f"*{src} += 1;" if mut else f"black_box(*{src});"], []
         if kind == "Ref":
@@ -43,7 +45,11 @@ def render_stmt(st, k, names, kinds):
     op = st["op"]
     n = len(names)
     h = f"h{n}"
+    src2 = names[st["src2"]] if "src2" in st else None
     table = {
+        "union_mut": (f"let mut {h} = {src}.union_mut({src2});", ["SetMut"]),
+        "inter_mut": (f"let mut {h} = {src}.intersection_mut({src2});", ["SetMut"]),
+        "diff_mut": (f"let mut {h} = {src}.difference_mut(&{src2});", ["SetMut"]),
         "view_mut": (f"let mut {h} = (&mut *{src}).view_mut();", ["ViewMut"]),
         "view": (f"let mut {h} = (&*{src}).view();", ["View"]),
         "iter_mut": (f"let mut {h} = {src}.iter_mut();", ["IterMut"]),
@@ -162,6 +168,9 @@ def compile_batch(tag, fns):
 
 ALL_OPS = ["view_mut", "view", "iter_mut", "iter", "get_mut", "get", "entry", "left", "right", "find", "split", "vm_iter_mut",
            "vm_into_iter", "vm_view", "vm_value_mut", "vm_value", "v_left", "v_iter", "next_mut", "next"]
+# the _mut set operations between two mutable views (second family of programs)
+SETOP_OPS = ["view_mut", "left", "right", "split", "vm_iter_mut", "vm_view", "vm_value_mut", "vm_value", "next_mut",
+             "union_mut", "inter_mut", "diff_mut"]
 
 
 def enumerate_programs(max_stmts, max_creates, ops=ALL_OPS, name="c14_borrow"):
